@@ -129,7 +129,10 @@ class Sched:
 CUR = [None]     # the scheduler in force (one per process at a time)
 
 
-class SchedQueue(queue.Queue):
+_RealQueue = queue.Queue          # the class itself: queue.Queue may be rebound to SchedQueue while a scenario runs
+
+
+class SchedQueue(_RealQueue):
     """queue.Queue whose operations are scheduling points when called from a controlled thread"""
 
     def _who(self):
@@ -141,7 +144,7 @@ class SchedQueue(queue.Queue):
     def put(self, item, block=True, timeout=None):
         S, role, owner = self._who()
         if role is None:
-            return queue.Queue.put(self, item, block, timeout)
+            return _RealQueue.put(self, item, block, timeout)
         is_stop = isinstance(item, str) and item == STOP
         if role == "tok" and owner == "sav" and S.just_read is not None:
             # StreamSaverWorker.read(): the block just read is forwarded to the writer in the same turn (model step TRead)
@@ -150,9 +153,9 @@ class SchedQueue(queue.Queue):
             if (data is None) != is_stop or (data is not None and item is not data and item != data):
                 S.anomalies.append("tokenizer thread forwarded %s to the writer after reading %s" % (
                     "the stop marker" if is_stop else "a block of %d bytes" % len(item), "None" if data is None else "a block of %d bytes" % len(data)))
-            return queue.Queue.put(self, item)
+            return _RealQueue.put(self, item)
         S.park(("put", self, owner))
-        queue.Queue.put(self, item)
+        _RealQueue.put(self, item)
         if role == "tok" and owner is not None and owner.startswith("obs"):
             j = int(owner[3:])
             if is_stop:
@@ -178,12 +181,12 @@ class SchedQueue(queue.Queue):
     def get(self, block=True, timeout=None):
         S, role, owner = self._who()
         if role is None:
-            return queue.Queue.get(self, block, timeout)
+            return _RealQueue.get(self, block, timeout)
         g = S.park(("get", self, block, timeout))
         if g in ("timeout", "empty"):
             item, r = None, -1
         else:
-            item = queue.Queue.get(self, False)
+            item = _RealQueue.get(self, False)
             is_stop = isinstance(item, str) and item == STOP
             if is_stop:
                 r = 0
@@ -260,8 +263,13 @@ def install(sched):
     """rebind the collaborators of auditok.workers; returns an undo function"""
     W = sched.W
     CUR[0] = sched
-    saved = (W.Queue, W.Worker.__dict__.get("start"), W.Worker.__dict__.get("join"))
-    W.Queue = SchedQueue
+    # the queue class is replaced both under the name workers.py imported it by (`from queue import Queue`) and in the queue
+    # module itself (`import queue` ... `queue.Queue()`), whichever way the module spells it
+    saved = (W.__dict__.get("Queue"), W.Worker.__dict__.get("start"), W.Worker.__dict__.get("join"), queue.Queue)
+    if saved[0] is not None:
+        W.Queue = SchedQueue
+    else:
+        queue.Queue = SchedQueue
 
     def start(self):
         S = CUR[0]
@@ -326,7 +334,10 @@ def install(sched):
     W.Worker.join = join
 
     def undo():
-        W.Queue = saved[0]
+        if saved[0] is not None:
+            W.Queue = saved[0]
+        else:
+            queue.Queue = saved[3]
         for name, val in (("start", saved[1]), ("join", saved[2])):
             if val is None:
                 try:
